@@ -69,7 +69,7 @@ pub fn run(args: &Args, rep: &mut Report) {
                 },
                 extra: 0,
                 garbage: true,
-                slack: 0,
+                slack: 0, used_device: false
             };
             let class = fnv_of(&[&vc.class()]);
             let init_sizes = boundary_values(cs, 2 * cs + 7);
